@@ -64,15 +64,15 @@ pub enum TransportProtocol {
 impl TransportProtocol {
     pub fn parse(src: &Bytes) -> impl Fn(&str) -> IResult<&str, Self> + '_ {
         move |i| {
-            alt((
-                map(tag("udp"), |_| TransportProtocol::Unspecified),
-                map(tag("RTP/AVP"), |_| TransportProtocol::RtpAvp),
-                map(tag("RTP/SAVP"), |_| TransportProtocol::RtpSavp),
-                map(tag("RTP/SAVPF"), |_| TransportProtocol::RtpSavpf),
-                map(take_while1(not_whitespace), |tp| {
-                    TransportProtocol::Other(BytesStr::from_parse(src, tp))
-                }),
-            ))(i)
+            // take the whole token first, a well-known protocol must not match as a prefix
+            // of a longer token (e.g. `RTP/SAVPF`, `RTP/AVPF`, `udptl`)
+            map(take_while1(not_whitespace), |tp| match tp {
+                "udp" => TransportProtocol::Unspecified,
+                "RTP/AVP" => TransportProtocol::RtpAvp,
+                "RTP/SAVP" => TransportProtocol::RtpSavp,
+                "RTP/SAVPF" => TransportProtocol::RtpSavpf,
+                _ => TransportProtocol::Other(BytesStr::from_parse(src, tp)),
+            })(i)
         }
     }
 }
